@@ -262,7 +262,7 @@ class Reaching:
         return _map_children(e, lambda c: c if (isinstance(c, ast.Name) and c.id in bound) else sub(c, at, depth, nn))
       return _map_children(e, lambda c: sub(c, at, depth, nn))
 
-    out = fold(sub(clone(expr), node, depth))
+    out = idioms(fold(sub(clone(expr), node, depth)))
     return out, free
 
   def nonnull_at(self, at, name):
@@ -351,6 +351,50 @@ def fold(e):
       ok, i = _cint(e.slice)
       if ok and i is not None and -len(elts) <= i < len(elts):
         return elts[i]
+  return e
+
+
+def _is_mask(m_):
+  """A Boolean row mask (not a label: with labels X.loc[a][c] and X.loc[a, c] differ on a MultiIndex)."""
+  if isinstance(m_, ast.Compare):
+    return True
+  if isinstance(m_, ast.BinOp) and isinstance(m_.op, (ast.BitAnd, ast.BitOr)):
+    return _is_mask(m_.left) and _is_mask(m_.right)
+  if isinstance(m_, ast.UnaryOp) and isinstance(m_.op, ast.Invert):
+    return _is_mask(m_.operand)
+  return isinstance(m_, ast.Call) and isinstance(m_.func, ast.Attribute) and m_.func.attr in ('isin', 'between', 'duplicated', 'isna', 'notna', 'isnull', 'notnull')
+
+
+def idioms(e):
+  """Normal forms of library spellings that denote the same value (applied at load time and to every expanded term, since
+  substituting a local can bring two halves of a spelling together):
+    X.loc[mask][c] -> X.loc[mask, c];  S.values -> S.to_numpy();  np.concatenate([a, b]) -> np.concatenate((a, b));
+    axis='columns' -> axis=1, axis='index'/'rows' -> axis=0;  X.to_list() -> X.tolist()."""
+  if not isinstance(e, ast.AST):
+    return e
+  if isinstance(e, (ast.FunctionDef, ast.ClassDef, ast.AsyncFunctionDef)):
+    return e
+  if isinstance(e, ast.Call) and isinstance(e.func, ast.Attribute) and e.func.attr == 'values':
+    # d.values(): the method of a mapping, not the array of a Series
+    e.func.value = idioms(e.func.value)
+    e.args = [idioms(a_) for a_ in e.args]
+    for k_ in e.keywords:
+      k_.value = idioms(k_.value)
+    return e
+  e = _map_children(e, idioms)
+  if isinstance(e, ast.Subscript) and isinstance(e.value, ast.Subscript) and isinstance(e.value.value, ast.Attribute) and e.value.value.attr == 'loc' \
+      and _is_mask(e.value.slice) and not isinstance(e.slice, (ast.Tuple, ast.Slice)) and isinstance(e.ctx, ast.Load):
+    return ast.copy_location(ast.Subscript(value=e.value.value, slice=ast.Tuple(elts=[e.value.slice, e.slice], ctx=ast.Load()), ctx=ast.Load()), e)
+  if isinstance(e, ast.Attribute) and e.attr == 'values' and isinstance(e.ctx, ast.Load):
+    return ast.copy_location(ast.Call(func=ast.Attribute(value=e.value, attr='to_numpy', ctx=ast.Load()), args=[], keywords=[]), e)
+  if isinstance(e, ast.Call):
+    if norm(e.func) in ('np.concatenate', 'numpy.concatenate', 'np.hstack', 'np.vstack', 'pd.concat', 'pandas.concat') and e.args and isinstance(e.args[0], ast.List):
+      e.args[0] = ast.copy_location(ast.Tuple(elts=e.args[0].elts, ctx=ast.Load()), e.args[0])
+    for k_ in e.keywords:
+      if k_.arg == 'axis' and isinstance(k_.value, ast.Constant) and k_.value.value in ('columns', 'index', 'rows'):
+        k_.value = ast.copy_location(ast.Constant(value=1 if k_.value.value == 'columns' else 0), k_.value)
+    if isinstance(e.func, ast.Attribute) and e.func.attr == 'to_list' and not e.args and not e.keywords:
+      e.func.attr = 'tolist'
   return e
 
 
